@@ -764,6 +764,7 @@ class Client(ClientLike):
 
             header.recv_time = time.perf_counter()
         except ConnectionError:
+            self._connected = False
             raise ConnectionLost
 
         # Read Data Section
@@ -803,6 +804,7 @@ class Client(ClientLike):
                     self._connected = False
                     raise ConnectionLost
             except ConnectionError:
+                self._connected = False
                 raise ConnectionLost
 
         return Message(header, data)
